@@ -99,7 +99,7 @@ ASSUMPTIONS = [
 ]
 EXPECTED_PROBES = ([f"driven.{c}" for c in DRIVEN_CLASSES] +
                    ["probe.arr_burst", "probe.arr_idle_gap", "probe.arr_ns_step", "probe.arr_at_timer_expiry", "probe.arr_steady", "probe.arr_decimal_step", "probe.nonzero_start_time", "probe.arr_retry_storm", "probe.arr_overload", "probe.signed_jitter", "probe.boundary_value_accepted",
-                    "probe.boundary_value_refused", "probe.manual_tick", "probe.arr_eviction_contention", "probe.arr_pool_exhaustion", "probe.arr_straggler_during_batch",
+                    "probe.boundary_value_refused", "probe.manual_tick", "probe.arr_eviction_contention", "probe.arr_pool_exhaustion", "probe.arr_burst_above_rate", "probe.arr_straggler_during_batch",
                     "probe.zero_delay_config", "probe.same_instant_10plus", "probe.repo_timer_in_future",
                     "probe.process_parked_on_future", "fault.partition", "fault.crash", "fault.pause", "fault.loss",
                     "fault.latency", "fault.stragglers", "fault.msgs_dropped_by_partition"])
